@@ -429,6 +429,37 @@ def _judge(case, mon, T, root, steps, rel, exact):
             mon.check(all(G.same_float(x, want, 1e-12) for x in r["lrs"]), "lr-written-into-optimizer",
                       observed=r["lrs"], expected=want, **det)
         shutil.rmtree(c_root, ignore_errors=True)
+    # ---- a controller WITHOUT a history file (state_csv_path=None; history lives in memory only), on which the public
+    # update_cache() is called in the middle of the run: decisions, rates and the info it returns are those of the
+    # run with a file
+    if (n + case["groups"] + len(case["entries"])) % 3 != 1:
+        mon.cls("in_memory_controller")
+        params = G.make_params(T, cfg, keep2=False)
+        mem = _guard(mon, "TrainingStateController(no file)", lambda: T.TrainingStateController(params, None, None))
+        for name, typ, fmt, vals in case["entries"]:
+            _guard(mon, "add_entry", lambda: mem.add_entry(name, G.TYPES[typ], fmt))
+        model, opt = G.make_model_opt(cfg, case["groups"])
+        _guard(mon, "load_model_and_optimizer_for_epoch", lambda: mem.load_model_and_optimizer_for_epoch(model, opt))
+        for e in range(1, n + 1):
+            G.train_to(model, opt, e)
+            kw = G.user_kwargs(case, e)
+            cont = _guard(mon, "update_for_epoch", lambda: mem.update_for_epoch(
+                model, opt, case["train"][e - 1], case["val"][e - 1],
+                best_is_train=bool(case.get("best_is_train", False)), **kw))
+            ra = recs[e - 1]
+            det = dict(epoch=e, val=case["val"][:e], cfg=cfg, in_memory=True)
+            mon.check(cont == ra["cont"] and mem.get_last_epoch() == e, "in-memory-decision",
+                      observed=[cont, mem.get_last_epoch()], expected=[ra["cont"], e], **det)
+            have = [g["lr"] for g in opt.param_groups]
+            mon.check(all(G.same_float(x, y, 1e-12) for x, y in zip(have, ra["lrs"])), "in-memory-lr",
+                      observed=have, expected=ra["lrs"], **det)
+            got = dict(mem.get_info(e, {}))
+            mon.check(got == ra["info"], "in-memory-info", observed=got, expected=ra["info"], **det)
+            if (e + n) % 2 == 0:
+                _guard(mon, "update_cache", lambda: mem.update_cache())
+                mon.stat("update_cache_in_mid_run")
+                mon.check(mem.get_last_epoch() == e, "in-memory-decision", what="history forgotten by update_cache()",
+                          observed=mem.get_last_epoch(), expected=e, **det)
     # ---- restart equivalence
     for j, plan in enumerate(case["restarts"]):
         b_root = os.path.join(root, "B%d" % j)
